@@ -105,10 +105,14 @@ package db
 //@   loop 1 invariant [intact] len(st.Indexes) == len(old(st.Indexes)) ==> st.Indexes == old(st.Indexes) && mem(old(st.Indexes)) == old(mem(st.Indexes))
 //@   loop 1 invariant [removed] len(st.Indexes) != len(old(st.Indexes)) ==> (forall k int :: $i <= k && k < len(old(st.Indexes)) ==> deepid(old(st.Indexes)[k].Columns) != deepid(cols))
 
+// addCreateIndex: every CREATE INDEX of the table becomes an index of the schema (no de-duplication:
+// SQLite builds each of them), under its own name, with columns per the toIndexColumns rule.
 //@ func (*db.Schema).addCreateIndex
 //@   props C10 C05
 //@   modifies alloc mem db.Schema.Indexes
 //@   requires st != nil
+//@   ensures [added] len(st.Indexes) == old(len(st.Indexes)) + 1 && st.Indexes[old(len(st.Indexes))].Index == ci.Index && len(st.Indexes[old(len(st.Indexes))].Columns) == len(ci.IndexedColumns)
+//@   ensures [kept] forall k int :: 0 <= k && k < old(len(st.Indexes)) ==> st.Indexes[k] == old(st.Indexes[k])
 
 // newCreateTable: automatic indexes are numbered in creation order: the counter passed into every
 // index name is one more than the number of automatic indexes created so far.
